@@ -160,6 +160,12 @@ def impl(case):
     t2 = synth.make_traj(m, ['Li'], c2)
     out['tp'] = [[int(round(v * 1024)) for v in p.positions[:, 0, 0]] for p in t2.split(case['n_parts'])]
     out['te'] = [[int(round(v * 1024)) for v in p.positions[:, 0, 0]] for p in t2.split(case['n_parts'], equal_parts=True)]
+    # a part is a trajectory of its own: after a displacement-based query it still reads as the frames it was cut from
+    parts3 = t2.split(case['n_parts'])
+    for p in parts3:
+        p.distances_from_base_position()
+        _ = p.cumulative_displacements
+    out['tp_after_disp'] = [[int(round(v * 1024)) for v in p.positions[:, 0, 0]] for p in parts3]
     out['inputs_changed'] = guard.changed()
     return out
 
@@ -174,6 +180,9 @@ def oracle(case, out):
         return [('c19/harness-error', f"{out.get('error')}: {out.get('msg')} {out.get('tb', '')[-300:]}")]
     fs = synth.inputs_clause(out, 'Transitions.split / Jumps.split / Trajectory.split')
     n = case['n_parts']
+    if 'tp_after_disp' in out and out['tp_after_disp'] != out['tp']:
+        k = next(i for i, (a, b) in enumerate(zip(out['tp_after_disp'], out['tp'])) if a != b)
+        fs.append(('split/part-not-self-contained', f'part {k} of Trajectory.split reads as frames {out["tp_after_disp"][k][:4]}... after a displacement query, it was cut from {out["tp"][k][:4]}... (x 1/1024)'))
     if out['n'] != n or len(out['tp']) != n:
         fs.append(('split/number-of-parts', f'{out["n"]} parts for n_parts={n}'))
     na = len(case['outer'])
